@@ -12,9 +12,9 @@ import z3
 
 # Budgets are RESOURCE limits (z3 rlimit: a deterministic count of solver steps), not wall-clock limits, so that a verdict
 # does not depend on how busy the machine is.  The wall-clock values are only a generous safety net.
-Z3_RLIMIT = int(os.environ.get('PYVC_Z3_RLIMIT', '120000000'))
+Z3_RLIMIT = int(os.environ.get('PYVC_Z3_RLIMIT', '40000000'))
 Z3_TIMEOUT_MS = int(os.environ.get('PYVC_Z3_TIMEOUT_MS', '600000'))
-CLI_RLIMIT = int(os.environ.get('PYVC_CLI_RLIMIT', '120000000'))
+CLI_RLIMIT = int(os.environ.get('PYVC_CLI_RLIMIT', '40000000'))
 CLI_TIMEOUT_S = int(os.environ.get('PYVC_CLI_TIMEOUT_S', '600'))
 CVC5_TLIMIT_S = int(os.environ.get('PYVC_CVC5_TLIMIT_S', '60'))
 
@@ -29,17 +29,34 @@ def to_smt2(axioms, hyps, goal):
     return s.to_smt2()
 
 
-def _solve_z3api(text, timeout_ms):
+def _solve_z3api(text, timeout_ms, rlimit=None):
     ctx = z3.Context()
     s = z3.Solver(ctx=ctx)
     s.set('auto_config', False)
     s.set('mbqi', False)
     s.set('timeout', timeout_ms)
-    s.set('rlimit', Z3_RLIMIT)
+    s.set('rlimit', rlimit or Z3_RLIMIT)
     s.from_string(text)
     t0 = time.time()
     r = s.check()
     return str(r), time.time() - t0
+
+
+def _solve_pair(text, rlimit):
+    import threading
+    box = {}
+
+    def cli():
+        box['cli'] = _solve_cli(['/usr/bin/z3', 'smt.auto_config=false', 'smt.mbqi=false', 'rlimit=%d' % rlimit,
+                                 '-T:%d' % CLI_TIMEOUT_S], text, CLI_TIMEOUT_S + 5)
+    th = threading.Thread(target=cli)
+    th.start()
+    try:
+        r, dt = _solve_z3api(text, Z3_TIMEOUT_MS, rlimit)
+    except Exception as exc:
+        r, dt = 'error:%s' % type(exc).__name__, 0.0
+    th.join()
+    return [('z3-%s-api' % z3.get_version_string(), r, dt), ('z3-4.8.12-cli',) + tuple(box['cli'])]
 
 
 def _solve_cli(cmd, text, timeout_s):
@@ -59,11 +76,16 @@ def _solve_cli(cmd, text, timeout_s):
         os.unlink(path)
 
 
+FOCUSED_RLIMIT = int(os.environ.get('PYVC_FOCUSED_RLIMIT', '8000000'))
+
+
 def solve_one(job):
     """Run the z3 5.x API and the z3 4.8.12 CLI concurrently on the same text (they succeed on
     different obligations); cvc5 is tried when neither answers unsat."""
     import threading
     oid, text, want_second = job
+    if want_second == 'focused':
+        return oid, _solve_pair(text, FOCUSED_RLIMIT)
     results = []
     box = {}
 
@@ -153,17 +175,32 @@ def discharge(th, obligations, second_backend=False, workers=None):
     workers = workers or min(16, os.cpu_count() or 4)
     by_id = {o.id: o for o in obligations}
     jobs, owner1 = [], {}
+    pieces = {}
     for o in obligations:
         o.trace, o.seconds, o.parts1 = [], 0.0, []
         for n, (extra, g) in enumerate(light_split(th, o.goal)):
             pid = '%s/c%d' % (o.id, n)
             owner1[pid] = o
-            jobs.append((pid, to_smt2(axioms, o.hyps + extra, g), second_backend))
+            pieces[pid] = (o, extra, g)
+            # stage 0: focused axioms (definitions of spec predicates the goal does not mention are left out), small budget
+            jobs.append((pid, to_smt2(th.focused_axioms(g), o.hyps + extra, g), 'focused'))
     if not jobs:
         return
     dump = os.environ.get('PYVC_DUMP')
+    stage0 = dict(_run(jobs, workers))
+    jobs = []
+    done0 = {}
+    for pid, results in stage0.items():
+        if any(r[1] == 'unsat' for r in results) and not second_backend:
+            done0[pid] = results
+        else:
+            o, extra, g = pieces[pid]
+            jobs.append((pid, to_smt2(axioms, o.hyps + extra, g), second_backend))
     texts = {j[0]: j[1] for j in jobs} if dump else {}
-    for pid, results in _run(jobs, workers):
+    stage1 = _run(jobs, workers) if jobs else []
+    merged = [(pid, [(b + '[focused]', v, dt) for b, v, dt in res]) for pid, res in done0.items()]
+    merged += [(pid, [(b + '[focused]', v, dt) for b, v, dt in stage0.get(pid, []) if v == 'unsat'] + list(res)) for pid, res in stage1]
+    for pid, results in merged:
         if dump and not any(r[1] == 'unsat' for r in results):
             os.makedirs(dump, exist_ok=True)
             with open(os.path.join(dump, pid.replace('/', '_').replace('#', '_') + '.smt2'), 'w') as fh:
